@@ -162,11 +162,44 @@ def strliteral_transformer(repo, dialect_name):
       return c[0] if len(c) == 1 else None
     return None
 
+  def func_named(name):
+    c = [m.funcs[name] for m in mods if name in m.funcs and m.funcs[name].parent is None
+         and m.funcs[name].cls is None]
+    return c[0] if len(c) == 1 else None
+
+  def table_lookup(table_expr, key, default, st, interp):
+    """D[key] / D.get(key, default) for a literal dict D of the code whose
+    values are functions: the function that renders this dialect."""
+    try:
+      entries = dict(tables.dict_entries(table_expr))
+    except AnalysisError:
+      return None
+    if not isinstance(key, Const):
+      return None
+    v = entries.get(key.v)
+    if v is None:
+      return interp.value(default, st) if default is not None else None
+    return interp.value(v, st)
+
   def call(node, st, interp):
     t = call_tail(node)
     if t == 'Name' and 'dialect' in (receiver(node) or ''):
       return Const(dialect_name)
     args = [interp.value(a, st) for a in node.args]
+    if t == 'get' and isinstance(node.func, ast.Attribute) and args:
+      got = table_lookup(node.func.value, args[0], node.args[1] if len(node.args) > 1 else None,
+                         st, interp)
+      if got is not None:
+        return got
+    # a call through a local that holds one of the module's functions
+    if isinstance(node.func, ast.Name):
+      held = st.env.get(node.func.id)
+      if isinstance(held, Sym) and func_named(held.text) is not None and \
+          any(isinstance(a, (Payload, Wrapped)) for a in args):
+        h = func_named(held.text)
+        params = list(h.params)
+        env = dict(zip(params, args))
+        return interp.inline(h.node, env, st, depth_limit=4)
     if t == 'replace' and isinstance(node.func, ast.Attribute) and len(args) == 2:
       recv = interp.value(node.func.value, st)
       if isinstance(recv, Payload) and all(isinstance(a, Const) and isinstance(a.v, str) for a in args):
@@ -216,6 +249,11 @@ def strliteral_transformer(repo, dialect_name):
     return Wrapped(prefix, mid, suffix) if mid is not None else None
 
   def expr(node, st, interp):
+    if isinstance(node, ast.Subscript) and isinstance(node.value, ast.Name) and \
+        node.value.id not in st.env:
+      got = table_lookup(node.value, interp.value(node.slice, st), None, st, interp)
+      if got is not None:
+        return got
     if isinstance(node, ast.Subscript) and const_str(node.slice) == 'the_string':
       base = interp.value(node.value, st)
       if isinstance(base, Sym):
